@@ -9,7 +9,11 @@ P = {
                   'the accounts holding code or storage (the interface EthAccountI does, in every state) init (export s) = s on the EVM '
                   'projection (parameters, storage and code of every address, whatever account kind sits there), export o init o export '
                   '= export and all code / storage queries agree, while the selection by the concrete type *EthAccount is refuted on a '
-                  'reachable state (contract on a clawback vesting account); refutation witnesses for the pinned coinomics InitGenesis '
+                  'reachable state (contract on a clawback vesting account); the storage of EVERY address survives export -> init '
+                  'whatever the code of its account, stated separately for addresses without code (a creation whose constructor '
+                  'stores and returns zero-length code leaves an account with the empty code hash and live storage: reachable in the '
+                  'model through EvCreate with empty runtime, witness state with slot 0 -> 42), while an InitGenesis that skips the '
+                  'exported accounts with empty code is refuted on that state (slot lost, export o init o export <> export); refutation witnesses for the pinned coinomics InitGenesis '
                   '(F3, fixed) and for epochs (K8, known); the models are the executable transcription of the InitGenesis/ExportGenesis '
                   'functions and are compared with a real export -> fresh app InitChain -> export on history-generated states on every '
                   'run, where the property itself (identical second document per Haqq module, identical answers of a query set that '
@@ -37,13 +41,20 @@ P = {
             'type: the future CREATE address of a deployer (nonce offset 0-2) is first turned into a clawback vesting account '
             '(MsgCreateClawbackVestingAccount with five schedule shapes, MsgConvertIntoVestingAccount with and without an immediate '
             'delegation) or funded ahead (bank / eth transfer) or left unused, then a hand-assembled small contract (three code '
-            'shapes, 0-3 constructor slots, optional endowment) or the script contract is created there, then SSTORE-changing calls; '
+            'shapes, 0-3 constructor slots, optional endowment; EIGHT constructor endings: return the runtime / RETURN of length 0 / '
+            'STOP without RETURN [both leave an account with nonce 1, NO code and the constructor\'s storage] / SELFDESTRUCT after '
+            'storing / return one byte of code [the control] / REVERT after storing / CREATE a child that stores and returns no '
+            'code or one byte, the child\'s address recorded in a slot) or a CREATE2 factory with creations that fail (store + REVERT '
+            'while the new account has no balance) and then succeed at the same address or the script contract is created there, '
+            'then SSTORE-changing calls (one slot; clear to zero; one call clearing or rewriting every constructor slot; calls with '
+            'value to addresses with and without code); '
             'eth and bank transfers, delegation, clawback vesting accounts of three shapes, '
             'liquidation and redemption, DAO fund and ownership transfer (base and liquid denominations), RegisterCoin + ConvertCoin, '
             'conversion toggles, parameter changes of evm / feemarket / coinomics / liquidvesting / ucdao / erc20, day-long time jumps; '
             'then export -> fresh app InitChain at the exported height -> Commit -> export; every history yields two cases: the '
             'document + query comparison for all Haqq modules (+ vesting accounts in auth, bank; for every address with a non-empty '
-            'code hash or a key under the EVM storage prefix on either chain: Account, Code, each storage slot, eth_call; the exported '
+            'code hash or a key under the EVM storage prefix on either chain -- so also the accounts with the empty code hash that '
+            'hold storage: Account, Code, each storage slot, eth_call; the exported '
             'evm.accounts entries carrying code or storage must be exactly those addresses with exactly that code and storage) and the single field '
             'epochs.current_epoch_start_height (class K8); non-trivial = at least 3 operations succeeded over at least 2 blocks; '
             'distinct = distinct histories',
